@@ -70,7 +70,11 @@ fn root_causes(log: &[L], range: std::ops::Range<usize>) -> Vec<(TaskId, Option<
   struct Frame { t: TaskId, inner_exec: bool, last_bad: Option<DepTarget> }
   let mut stack: Vec<Frame> = vec![];
   let mut out = vec![];
+  // Tasks executed / resources written so far in this build: an execution explained by them is not a root cause.
+  let mut executed: BTreeSet<TaskId> = BTreeSet::new();
+  let mut written: BTreeSet<ResId> = BTreeSet::new();
   for l in &log[range] {
+    if let L::RSet { r, .. } = l { written.insert(*r); }
     let L::E(ev) = l else { continue; };
     match ev {
       Ev::RequireStart { t, .. } | Ev::CheckTaskStart { t, .. } => stack.push(Frame { t: *t, inner_exec: false, last_bad: None }),
@@ -88,10 +92,12 @@ fn root_causes(log: &[L], range: std::ops::Range<usize>) -> Vec<(TaskId, Option<
       Ev::ExecStart { t } => {
         if let Some(f) = stack.last_mut() {
           if f.t == *t {
-            if !f.inner_exec { out.push((*t, f.last_bad)); }
+            let explained = match f.last_bad { Some(DepTarget::Task(x)) => executed.contains(&x), Some(DepTarget::Res(r)) => written.contains(&r), None => false };
+            if !f.inner_exec && !explained { out.push((*t, f.last_bad)); }
             f.inner_exec = true;
           }
         }
+        executed.insert(*t);
         // Mark all enclosing frames.
         for f in stack.iter_mut() { f.inner_exec = true; }
       }
